@@ -7,14 +7,16 @@ package memberlist
 //@ # the atomic compare-and-merge step (the whole body runs under storeMu)
 //@ func KV.mergeValueForKey
 //@   property C07 C06
-//@   requires !isnil(m.store) && get(m.store, key).Version < 18446744073709551615
+//@   requires !isnil(m.store)
+//@   # (version overflow at 2^64 is excluded in the clauses that need it)
 //@   # a compare-and-swap whose function read a different version (including "no value", version 0) is refused, store untouched
 //@   ensures  mismatch: cas && !deleted && get(old(m).store, key).Version != casVersion ==> err == errVersionMismatch && newVersion == 0 && same(m.store, old(m).store)
 //@   # a stored update bumps the version by exactly one, and a CAS can only store on top of the version it read
-//@   ensures  stored: newVersion > 0 ==> err == nil && in(key, m.store) && m.store[key].Version == newVersion && newVersion == get(old(m).store, key).Version + 1 && (cas ==> get(old(m).store, key).Version == casVersion)
-//@   ensures  notstored: newVersion == 0 ==> same(m.store, old(m).store)
+//@   ensures  stored: newVersion > 0 ==> err == nil && in(key, m.store) && m.store[key].Version == newVersion && newVersion == get(old(m).store, key).Version + 1 && get(old(m).store, key).Version < 18446744073709551615 && (cas ==> get(old(m).store, key).Version == casVersion)
+//@   ensures  notstored: newVersion == 0 && get(old(m).store, key).Version < 18446744073709551615 ==> same(m.store, old(m).store)
 //@   ensures  others: forall k string :: k != key ==> (in(k, m.store) <==> in(k, old(m).store)) && (in(k, m.store) ==> same(m.store[k], old(m).store[k]))
 //@   ensures  failed: err != nil ==> newVersion == 0
+//@   ensures  !isnil(m.store)
 //@
 //@ func ValueDesc.Clone
 //@   property C04 C07
@@ -29,3 +31,60 @@ package memberlist
 //@   ensures  err == nil && version == get(m.store, key).Version
 //@   ensures  hidden: out != nil ==> stripped
 //@   modifies nothing
+//@
+//@ # ---- C06: a queued update is superseded only by an update that contains it ------------------------------
+//@ func ringBroadcast.Invalidates
+//@   property C06
+//@   ensures  onlyring: result ==> istype(old, "ringBroadcast")
+//@   ensures  contains: result ==> r.key == astype(old, "ringBroadcast").key && r.version >= astype(old, "ringBroadcast").version &&
+//@              (forall i int :: 0 <= i && i < len(astype(old, "ringBroadcast").content) ==>
+//@                 (exists j int :: 0 <= j && j < len(r.content) && r.content[j] == astype(old, "ringBroadcast").content[i]))
+//@   ensures  complete: istype(old, "ringBroadcast") && r.key == astype(old, "ringBroadcast").key && r.version >= astype(old, "ringBroadcast").version &&
+//@              (forall i int :: 0 <= i && i < len(astype(old, "ringBroadcast").content) ==>
+//@                 (exists j int :: 0 <= j && j < len(r.content) && r.content[j] == astype(old, "ringBroadcast").content[i])) ==> result
+//@   ghost var w total[int]int = havoc
+//@   loop 0 invariant forall i int :: 0 <= i && i < $i ==> 0 <= w[i] && w[i] < len(r.content) && r.content[w[i]] == oldb.content[i]
+//@   loop 0 end w := store(w, $i - 1, $i1)
+//@   loop 1 invariant !found && (forall j int :: 0 <= j && j < $i ==> r.content[j] != oldName)
+//@
+//@ # ---- C06: malformed, empty-key or unknown-codec messages never reach the store -----------------------------
+//@ func KV.NotifyMsg
+//@   property C06
+//@   ghost var enq int = 0
+//@   at after@memberlist.KV.enqueueKeyUpdate: enq := enq + 1
+//@   at exit: assert err != nil ==> enq == 0
+//@   at exit: assert len(kvPair.Key) == 0 ==> enq == 0
+//@   at exit: assert enq <= 1
+//@
+//@ func KV.mergeBytesValueForKey
+//@   property C06
+//@   ghost var merges int = 0
+//@   at after@memberlist.KV.mergeValueForKey: merges := merges + 1
+//@   requires !isnil(m.store)
+//@   ensures !isnil(m.store)
+//@   at exit: assert merges == 0 ==> r4 != nil && r1 == 0
+//@   at exit: assert merges <= 1
+//@
+//@ # ---- C06: a received update that changed the store is always re-gossiped and announced to watchers; others never ----
+//@ func KV.MergeRemoteState
+//@   property C06
+//@   requires !isnil(m.store)
+//@   loop 0 invariant !isnil(m.store)
+//@   ghost var notified bool = false
+//@   ghost var broadcasted bool = false
+//@   at after@memberlist.KV.notifyWatchers: notified := true
+//@   at after@memberlist.KV.broadcastNewValue: broadcasted := true
+//@   loop 0 head notified := false
+//@   loop 0 head broadcasted := false
+//@   at after@memberlist.KV.addReceivedMessage: assert !notified && !broadcasted
+//@   loop 0 end assert (notified <==> broadcasted)
+//@
+//@ # frames of helpers that do not touch the store (assumed: by inspection they only use other fields)
+//@ assume func KV.GetCodec
+//@   modifies nothing
+//@ assume func KV.addReceivedMessage
+//@   ensures same(m.store, old(m).store)
+//@ assume func KV.notifyWatchers
+//@   ensures same(m.store, old(m).store)
+//@ assume func KV.broadcastNewValue
+//@   ensures same(m.store, old(m).store)
